@@ -523,6 +523,7 @@ def rule_range(ck):
     # ---- single-edge grid forces open mode and a positive spacing; negative spacing raises
     o = ck.ob('C02-D3.single', f, 'single-edge grid -> open-ended with positive spacing', f.node)
     found = False
+    rc_any, hs_all = False, []
     # the spacing variable: whatever name receives the difference of the first two edges
     spacing_names = set()
     for n in all_nodes(f):
@@ -551,13 +552,17 @@ def rule_range(ck):
                               s.targets[0].id == 'right_continuous' and is_true(s.value) for s in branch)
                 hs = [s for s in branch if isinstance(s, ast.Assign) and isinstance(s.targets[0], ast.Name)
                       and s.targets[0].id in spacing_names]
-                hpos = bool(hs) and all((const_value(s.value) is not NotImplemented and const_value(s.value) > 0) for s in hs)
                 found = True
-                if sets_rc and hpos:
-                    o.ok('bins.size == 1 -> right_continuous=True, h>0')
-                else:
-                    o.fail('the single-edge branch does not force open-ended mode with a positive spacing '
-                           '(right_continuous=True: %s, positive h: %s)' % (sets_rc, hpos))
+                rc_any = rc_any or sets_rc
+                hs_all.extend(hs)
+    if found:
+        # the two bindings may stand in one branch or in two consecutive `if size == 1:` statements
+        hpos = bool(hs_all) and all((const_value(s.value) is not NotImplemented and const_value(s.value) > 0) for s in hs_all)
+        if rc_any and hpos:
+            o.ok('bins.size == 1 -> right_continuous=True, h>0')
+        else:
+            o.fail('the single-edge branch does not force open-ended mode with a positive spacing '
+                   '(right_continuous=True: %s, positive h: %s)' % (rc_any, hpos))
     if o.status == 'violated' or not found:
         # the same fact read along the paths: wherever the size test says "one edge", the flag ends up True and the spacing a positive
         # constant - however many statements lie between the test and the two bindings
